@@ -1,7 +1,7 @@
 """Per-property configuration of ./check: Lean modules, correspondence streams, oracles, and the
 texts that go into MANIFEST.json (regenerate with ./mkmanifest.py)."""
 
-HOOK_COMMITS = ["42d3529"]
+HOOK_COMMITS = ["42d3529", "6304aea"]
 NOT_APPLICABLE = {}
 
 PROPS = {
@@ -89,6 +89,38 @@ PROPS = {
         "technique": "Lean 4 proof (case analysis + induction over run chains) + correspondence/e2e oracle",
         "rule": "is_fully_optimized on boundary and random size pairs x force; e2e: generated PNGs of all legal type/depth pairs x generated options with force=false, "
                 "plus 2-step chains with fresh options; files: in place / --out / pretend incl. already-optimal inputs; distinct = distinct (input bytes, options)",
+    },
+    "C05": {
+        "lean": ["OxiModel.Props.C05"],
+        "streams": [{"name": "corr-front", "quick": 3000, "thorough": 60000}],
+        "oracles": [{"name": "oracle-c05", "quick": 2500, "thorough": 200000}],
+        "claim": "Lean 4 theorems over ALL byte strings: the chunk walker, the fcTL/fdAT sequence-number read, fcTL parsing, IHDR field access, colour-key and palette parsing never index out of range "
+                 "(every slice/index of the Rust code is explicit in the model and the outcome `panic` is proved unreachable); a parsed chunk advances the offset by >= 12 (termination); an accepted header "
+                 "has non-zero dimensions and a depth legal for its colour type; if the size guard passes, the buffer sized from the header is <= 17*1032*len+14 bytes (non-interlaced). The whole of "
+                 "PngData::from_slice is modelled (walker, policy, animation chunks, header validation, size guard, length check, unfiltering) and compared with the code on a mutated corpus, error "
+                 "kinds included. The oracle runs every mutation through the real entry points in a worker process with a counting allocator and an address-space limit: panic, abort, signal, "
+                 "excess heap or a 20 s stall is a failing input.",
+        "note": "Partial: the theorems cover the front end up to the accepted header and the inflate-buffer size; reductions/evaluator on accepted-but-odd images (stray indices, empty palettes), allocator "
+                "behaviour, stack depth are covered only by the worker runs. The interlaced allocation bound is checked by the oracle, proved only for the non-interlaced layout. 64-bit usize assumed.",
+        "technique": "Lean 4 proof (explicit-index model, panic outcome unreachable) + correspondence on mutated files + worker-process oracle",
+        "partial_note": "post-header code paths and runtime (allocator, stack) are outside the theorems",
+        "rule": "corpus of 32 generated files (15 type/depth pairs x interlaced/not with gAMA/bKGD/tEXt/iCCP/caBX, 2 APNGs) x mutations: single-bit flips, byte sets, truncations (strided in quick), "
+                "chunk deletion/duplication/swap, payload-length edits with fixed-up CRC, IHDR field edits (zero/huge dimensions, every depth/colour-type/interlace code), fcTL/acTL/iCCP/caBX/PLTE/tRNS edits, "
+                "x fix_errors x strip policy; distinct = distinct mutated byte strings",
+    },
+    "C11": {
+        "lean": ["OxiModel.Props.C11"],
+        "streams": [{"name": "corr-raw", "quick": 4000, "thorough": 80000}],
+        "oracles": [{"name": "oracle-c11", "quick": 2500, "thorough": 40000}],
+        "claim": "Lean 4 theorems: RawImage::new accepts exactly the tuples with a depth legal for the colour type, non-zero dimensions, a palette of 1..2^depth entries, a non-overflowing size and "
+                 "data length = row bytes x height; illegal depth, wrong length and zero dimensions are rejected whatever the rest; accepted data has exactly the length of the specification's scan lines. "
+                 "The decision is compared with the code on consistent and inconsistent tuples (incl. u32::MAX dimensions); whatever is accepted is encoded by the real create_optimized_png and must be "
+                 "panic-free and well-formed; the oracle compares the decoded PNG with the given samples (C01 / C03 relation), validates it (C02) and checks attached chunks and ICC profile against the strip policy.",
+        "note": "Pixel fidelity of create_optimized_png is the C01/C03 pipeline with parsing replaced by the identity: covered by the oracle plus the shared reduction streams. "
+                "Pixel indices beyond the palette have no defined meaning and are not generated.",
+        "technique": "Lean 4 proof (decision logic) + correspondence + e2e oracle",
+        "rule": "argument tuples over all colour types x depths (legal or not) x zero/huge/normal dimensions x palette sizes {0,1,2^d+1,300,valid} x data lengths {exact,-1,+1,random}; "
+                "oracle: generated grids of the 15 legal pairs with attached tEXt/pHYs/private chunks and ICC profiles x generated options; distinct = distinct requests / (image, options)",
     },
     "C06": {
         "lean": ["OxiModel.Props.C06"],
